@@ -147,6 +147,10 @@ class Gen:
             return ['@label { "%s" %d }:' % (base, num), "@dw %s" % name, dbl], ["%s:" % name, "@dw %s" % name, dbl]
         self.kinds.add("parse")
         l = self.dbline()
+        if r.random() < 0.3:
+            # parsed text that itself holds an @parse, with more text behind it
+            l2, l3 = self.dbline(), self.dbline()
+            return ['@parse "%s @parse \\"%s\\" %s"' % (l, l2, l3)], [l, l2, l3]
         return ['@parse "%s"' % l], [l]
 
 def build(rng):
@@ -216,8 +220,12 @@ def run(ck):
                 lines.append("ent1"); expect.append(2)
             elif r < 0.7:
                 lines.append("ent2 { ent1 }"); expect.append((1, 2, 1))
-            else:
+            elif r < 0.85:
                 lines.append("@each ZZ , { 1 2 }"); lines.append("@db @entropy , 0"); lines.append("@endeach"); expect.append(("each", 2))
+            else:
+                # an expansion inside an @each body is its own expansion (one element: the body is replayed once)
+                lines.append("@each ZZ , { 1 }"); lines.append("@db @entropy , 0"); lines.append("ent1"); lines.append("@db @entropy , 0"); lines.append("@endeach")
+                expect.append(("eachnest",))
         ecases.append(("\n".join(lines) + "\n", expect))
     eres = [AsmResult(r) for r in run_cases(harness, [asm_case("z80", text=t) for t, _ in ecases])]
     ck.evaluations += len(ecases)
@@ -234,6 +242,8 @@ def run(ck):
                 groups.append(strs[i:i + 2]); i += 2
             elif isinstance(e, tuple) and e[0] == "each":
                 groups.append(strs[i:i + 2]); i += 2          # both iterations of one @each share its expansion
+            elif isinstance(e, tuple) and e[0] == "eachnest":
+                groups.append([strs[i], strs[i + 3]]); groups.append(strs[i + 1:i + 3]); i += 4
             else:
                 outer = [strs[i], strs[i + 3]]; inner = strs[i + 1:i + 3]; i += 4
                 groups.append(outer); groups.append(inner)
